@@ -61,6 +61,7 @@ class SimDevice:
         self.handshakes = 0
         self.requests = 0
         self.extra_creds: dict[bytes, bytes] = {}   # further token -> key registrations
+        self.unknown_token = "error"     # or "silent"
         self.lossy = None            # optional f(conn, ptype) -> True: packet is lost before the device sees it
         self.on_enc_request = None   # optional takeover of verified type-6 packets: f(conn, V3Packet, entry)
         # wire log: one entry per client packet
@@ -170,7 +171,9 @@ class SimDevice:
                 self._dispatch(conn, "handshake", [reply], p.body, True, data)
             else:
                 entry["error"] = "unknown token"
-                self._dispatch(conn, "handshake", [rc.v3_build_plain(rc.T_ERROR, p.counter, b"")], p.body, False, data)
+                # a device either rejects an unknown token with an error packet or simply does not answer
+                reply = [] if self.unknown_token == "silent" else [rc.v3_build_plain(rc.T_ERROR, p.counter, b"")]
+                self._dispatch(conn, "handshake", reply, p.body, False, data)
             return
         if ptype == rc.T_ENC_REQ:
             if st["session_key"] is None:
